@@ -74,6 +74,13 @@ func main() {
 		os.Exit(2)
 	}()
 	debug.SetGCPercent(400)
+	// soft heap limit: GOGC=400 trades memory for speed, but never beyond this (thorough tiers of
+	// C01/C02 otherwise grow past the machine's memory)
+	memLimit := int64(20) << 30
+	if v, err := strconv.Atoi(os.Getenv("VERIF_MEM_GB")); err == nil && v > 0 {
+		memLimit = int64(v) << 30
+	}
+	debug.SetMemoryLimit(memLimit)
 	if pf := os.Getenv("GOSMT_PROF"); pf != "" {
 		f, _ := os.Create(pf)
 		pprof.StartCPUProfile(f)
@@ -82,6 +89,11 @@ func main() {
 	switch cmd {
 	case "check":
 		rc := check(prop, *tier, *only, *repo, *verif, *workers, *par, seed, *dump, *verbose, *noEvidence)
+		if hp := os.Getenv("GOSMT_HEAPPROF"); hp != "" {
+			f, _ := os.Create(hp)
+			pprof.WriteHeapProfile(f)
+			f.Close()
+		}
 		pprof.StopCPUProfile()
 		os.Exit(rc)
 	case "replay":
